@@ -151,6 +151,8 @@ def setup_setter(which):
             it.assume(Not(Eq(a, b)))
             args["cpus"] = [a, b]
             spec.update(a=a, b=b)
+        elif which == "cpu_affinity_empty":       # [] = "all eligible CPUs": a setting like any other
+            args["cpus"] = []
         return {"args": args, "spec": spec}
     return setup
 
@@ -167,6 +169,11 @@ REGISTRY.add(Contract("C01", INIT, "Process.rlimit", setup=setup_setter("rlimit"
                       helpers=HELPERS,
                       ensures=["calls(log, 'rlimit') == [('rlimit', resource, limits)]"], raises=SET_RAISES,
                       canaries=["len(calls(log, 'rlimit')) == 0"], replay="c01:history"))
+REGISTRY.add(Contract("C01", INIT, "Process.cpu_affinity", name="__init__.Process.cpu_affinity([])",
+                      setup=setup_setter("cpu_affinity_empty"), env=ENV, inline=INLINE, helpers=HELPERS,
+                      ensures=["len(calls(log, 'cpu_affinity_set')) == 1"], raises=SET_RAISES,
+                      canaries=["len(calls(log, 'cpu_affinity_set')) == 0"], replay="c01:history",
+                      note="the empty list (all eligible CPUs) is delivered only after the identity check, like any setting"))
 REGISTRY.add(Contract("C01", INIT, "Process.cpu_affinity", setup=setup_setter("cpu_affinity"), env=ENV, inline=INLINE,
                       helpers=HELPERS,
                       ensures=["len(calls(log, 'cpu_affinity_set')) == 1",
@@ -243,3 +250,48 @@ def table_call_sites():
 
 
 TABLES = [table_call_sites]
+
+
+
+def table_no_caching():
+    """is_running(), the identity check, the signal senders and the setters must run their body on every call: a caching
+    decorator (memoize_when_activated freezes the answer inside oneshot()) would let a recycled PID go unnoticed"""
+    import ast as _ast
+    import os as _os
+    repo = _os.environ.get("VERIF_REPO", "/repo")
+    tree = _ast.parse(open(_os.path.join(repo, INIT)).read())
+    names = {"is_running", "_raise_if_pid_reused", "_send_signal", "send_signal", "suspend", "resume", "terminate", "kill",
+             "nice", "ionice", "rlimit", "cpu_affinity", "_get_ident", "__eq__", "__hash__"}
+    out = []
+    for cls in [n for n in tree.body if isinstance(n, _ast.ClassDef) and n.name == "Process"]:
+        for node in _ast.walk(cls):
+            if isinstance(node, _ast.FunctionDef) and node.name in names:
+                decs = [_ast.unparse(d) for d in node.decorator_list]
+                out.append((f"Process.{node.name} is not wrapped by a caching decorator", not decs, f"decorators: {decs}"))
+    return out
+
+
+TABLES = list(globals().get("TABLES", [])) + [table_no_caching]
+
+
+# --- the identity itself: (pid, start time since boot) at full kernel resolution ----------------------------------------
+# "any number of recyclings": two owners of a PID are told apart by their start time, so that start time must be the
+# kernel's value (clock ticks / tick rate), not a coarsened one.  Same contracts as C02, registered here as well.
+from . import C02 as _c02   # noqa: E402
+from . import C06 as _c06   # noqa: E402
+
+REGISTRY.add(_c06.PSP)
+REGISTRY.add(Contract("C01", LINUX_PY, "boot_time", callee_only=True,
+                      returns=lambda it, env: it.ctx.ghost["btime_now"]))
+REGISTRY.add(Contract(
+    "C01", LINUX_PY, "Process.create_time", name="_pslinux.Process.create_time(identity)", setup=_c02.setup_ct, env=ENV,
+    decorated=True, raises_any=True, helpers={"intval": _c02.h_intval}, inline=["_is_zombie", "_raise_if_zombie"],
+    configs=[{"monotonic": True, "cached": c} for c in (True, False)],
+    ensures=["result * CLK == intval(F[19])"], canaries=["result == bt"], replay=None,
+    returns=lambda it, env: it.fresh("ct", "Real"),
+    note="the identity's start time is exactly start ticks / tick rate (no rounding: PIDs recycled within the same "
+         "second are still told apart)"))
+REGISTRY.add(Contract(
+    "C01", INIT, "Process._get_ident", setup=_c02.setup_ident, env=ENV, inline=["pid", "create_time"],
+    ensures=["result == (self._pid, mono)"], raises={}, canaries=["result == (self._pid, epoch)"], replay=None,
+    note="identity = (pid, start time since boot)"))
